@@ -9,7 +9,7 @@ use serde_json::json;
 use std::str::FromStr;
 use wax::{CandidatePath, Glob, Program};
 
-use crate::common::{Alarm, Report, Tier};
+use crate::common::{guard, Alarm, Report, Tier};
 use crate::model::{self, bump};
 use crate::props_query::for_each_glob;
 use crate::space::SpaceOpts;
@@ -340,6 +340,16 @@ pub fn c04(tier: Tier) -> i32 {
                 msg: format!("`{}` reports {} capturing sub-expressions, the expression has {}", e.text, reported, cm.caps.len()),
                 case: json!({"kind": "captures", "expression": e.text, "path": ""}),
             });
+        }
+        // ... and each reported capturing token IS the corresponding capturing sub-expression (index
+        // and span), also after partitioning, where spans refer to the postfix expression
+        crate::props_total::check_capture_spans(&rep, c, &e.text, &e.text, g);
+        if let Ok((_, Some(post))) = guard(|| g.clone().partition()) {
+            let ptext = post.to_string();
+            if Glob::new(&ptext).is_ok() {
+                crate::props_total::check_capture_spans(&rep, c, &e.text, &ptext, &post);
+                bump(c, "partitioned_capture_sets_checked", 1);
+            }
         }
         let (spec_ok, u2, u3, ref_dfa) = match lang::reference(&e.ast, &Deviations::default()) {
             lang::Spec::Specified(r) => (true, r.u2, r.u3, Dfa::new(&r.regex).ok()),
